@@ -163,20 +163,20 @@ fn build_column_array(
             let mut all_values: Vec<f32> = Vec::new();
             let field = Arc::new(Field::new("item", ArrowDataType::Float32, false));
 
-            if let Some(fixed_dim) = dim {
-                // Use FixedSizeListArray for known dimensions
+            if let Some(fixed_dim) = dim.filter(|d| *d > 0) {
+                // Use FixedSizeListArray for known (non-zero) dimensions
                 for tuple in tuples {
                     if let Some(vec) = tuple.get(col_idx).and_then(|v| v.as_vector()) {
                         all_values.extend_from_slice(vec);
                     } else {
                         // Null vector - pad with zeros
-                        all_values.extend(std::iter::repeat_n(0.0f32, *fixed_dim));
+                        all_values.extend(std::iter::repeat_n(0.0f32, fixed_dim));
                     }
                 }
                 let values_array = Arc::new(Float32Array::from(all_values));
                 let list_array = arrow::array::FixedSizeListArray::new(
                     field,
-                    *fixed_dim as i32,
+                    fixed_dim as i32,
                     values_array,
                     None,
                 );
@@ -216,20 +216,20 @@ fn build_column_array(
             let mut all_values: Vec<i8> = Vec::new();
             let field = Arc::new(Field::new("item", ArrowDataType::Int8, false));
 
-            if let Some(fixed_dim) = dim {
-                // Use FixedSizeListArray for known dimensions
+            if let Some(fixed_dim) = dim.filter(|d| *d > 0) {
+                // Use FixedSizeListArray for known (non-zero) dimensions
                 for tuple in tuples {
                     if let Some(vec) = tuple.get(col_idx).and_then(|v| v.as_vector_int8()) {
                         all_values.extend_from_slice(vec);
                     } else {
                         // Null vector - pad with zeros
-                        all_values.extend(std::iter::repeat_n(0i8, *fixed_dim));
+                        all_values.extend(std::iter::repeat_n(0i8, fixed_dim));
                     }
                 }
                 let values_array = Arc::new(Int8Array::from(all_values));
                 let list_array = arrow::array::FixedSizeListArray::new(
                     field,
-                    *fixed_dim as i32,
+                    fixed_dim as i32,
                     values_array,
                     None,
                 );
@@ -348,11 +348,11 @@ fn empty_array_for_type(dt: &DataType) -> ArrayRef {
         DataType::Null => Arc::new(arrow::array::NullArray::new(0)),
         DataType::Vector { dim } => {
             let field = Arc::new(Field::new("item", ArrowDataType::Float32, false));
-            if let Some(fixed_dim) = dim {
+            if let Some(fixed_dim) = dim.filter(|d| *d > 0) {
                 let values_array = Arc::new(Float32Array::from(Vec::<f32>::new()));
                 Arc::new(arrow::array::FixedSizeListArray::new(
                     field,
-                    *fixed_dim as i32,
+                    fixed_dim as i32,
                     values_array,
                     None,
                 ))
@@ -369,11 +369,11 @@ fn empty_array_for_type(dt: &DataType) -> ArrayRef {
         }
         DataType::VectorInt8 { dim } => {
             let field = Arc::new(Field::new("item", ArrowDataType::Int8, false));
-            if let Some(fixed_dim) = dim {
+            if let Some(fixed_dim) = dim.filter(|d| *d > 0) {
                 let values_array = Arc::new(Int8Array::from(Vec::<i8>::new()));
                 Arc::new(arrow::array::FixedSizeListArray::new(
                     field,
-                    *fixed_dim as i32,
+                    fixed_dim as i32,
                     values_array,
                     None,
                 ))
